@@ -42,6 +42,11 @@ pub enum Op {
     /// ICMP / ICMPv6 error from flow f's client quoting the TCP header of a segment the responder
     /// sent on that flow (its SYN-ACK: server port -> client port, sequence = the cookie)
     IcmpErr { f: u8, typ4: u8, typ6: u8, code: u8 },
+    /// a segment that is neither a SYN nor a data segment: any flag combination without SYN and
+    /// without PSH and ACK together (PSH alone, PSH|FIN, URG|ACK, FIN, no flags at all ...), with or
+    /// without payload, its acknowledgement field related to the flow's cookie. It acknowledges
+    /// nothing as data: no state may be created for it (C09)
+    Odd { f: u8, flags: u16, seq: u32, ack: AckMode, pay: Option<Pay> },
     Noise(Step),
 }
 
@@ -99,6 +104,13 @@ pub fn op(good: u32, noise: u32, syn: u32) -> BoxedStrategy<Op> {
         1 => (0u8..4, any::<u32>()).prop_map(|(f, seq)| Op::Rst { f, seq }),
         2 => (0u8..4, prop::sample::select(vec![F_ACK, F_ACK, F_RST, F_FIN | F_ACK]), any::<u32>(), ack_mode(4)).prop_map(|(f, flags, seq, ack)| Op::Bare { f, flags, seq, ack }),
         1 => (0u8..4, icmp_err_type(), prop_oneof![3 => 0u8..6, 1 => any::<u8>()]).prop_map(|(f, (typ4, typ6), code)| Op::IcmpErr { f, typ4, typ6, code }),
+        1 => (0u8..4, prop_oneof![3 => prop::sample::select(vec![F_PSH, F_PSH | F_FIN, F_PSH | F_URG, F_PSH | F_RST, 0u16, F_FIN, F_URG | F_ACK, F_ACK | F_ECE, F_PSH | F_CWR]), 1 => 0u16..512], any::<u32>(), ack_mode(6), prop::option::weighted(0.6, small_pay())).prop_map(|(f, fl, seq, ack, pay)| {
+            let mut flags = fl & !F_SYN;
+            if flags & (F_PSH | F_ACK) == (F_PSH | F_ACK) {
+                flags &= !F_ACK;
+            }
+            Op::Odd { f, flags, seq, ack, pay }
+        }),
         noise => step_noise().prop_map(Op::Noise),
     ]
 })();
@@ -355,6 +367,23 @@ fn run_case0(c: &Case, st: &mut Stats, mode: &Mode) -> Check {
                     }
                 }
             }
+            Op::Odd { f, flags, seq, ack, pay } => {
+                let fi = *f as usize % n;
+                let cookie = cookies[fi];
+                let ackno = ack.value(cookie, match ack { AckMode::OtherFlow(g) => cookies[*g as usize % n], _ => 0 });
+                let pb = pay.as_ref().map(|p| p.bytes(true)).unwrap_or_default();
+                let out = sut.frame(&padded(flows[fi].seg(*seq, ackno, *flags, &pb)));
+                st.class(&format!("op:odd:{}:{}:{}", if *flags & F_PSH != 0 { "psh-without-ack" } else if *flags & F_ACK != 0 { "ack-without-psh" } else { "neither" }, if ackno == cookie.wrapping_add(1) { "ack-field=cookie+1" } else { "other-ack-field" }, if pb.is_empty() { "empty" } else { "payload" }));
+                unvalidated_frames += 1;
+                if let Out::Panic(p) = &out {
+                    return Err(Failure::keyed(p.key(), format!("panic on a non-data segment: {} {}", p.file, p.msg)));
+                }
+                if mode.check_replies && (*flags == F_ACK || *flags == F_RST) && pb.is_empty() {
+                    if let Out::Reply(r) = &out {
+                        vfail!("op #{}: bare {} answered: {}", k, if *flags == F_ACK { "ACK" } else { "RST" }, hex(r));
+                    }
+                }
+            }
             Op::IcmpErr { f, typ4, typ6, code } => {
                 let fi = *f as usize % n;
                 let fl = &flows[fi];
@@ -410,6 +439,7 @@ fn op_name(o: &Op) -> String {
         Op::Rst { f, .. } => format!("rst(f{})", f),
         Op::IcmpErr { f, typ4, typ6, code } => format!("icmp-error(f{},type {}/{},code {})", f, typ4, typ6, code),
         Op::Bare { f, flags, ack, .. } => format!("bare(f{},{:#x},{:?})", f, flags, ack),
+        Op::Odd { f, flags, ack, pay, .. } => format!("odd(f{},{:#x},{:?},{}B)", f, flags, ack, pay.as_ref().map(|p| p.bytes(true).len()).unwrap_or(0)),
         Op::Noise(s) => format!("noise({})", s.kind()),
     }
 }
